@@ -28,3 +28,6 @@ Lemma term_strs_TStrs l : term_strs (TStrs l) = l.
 Proof.
   unfold term_strs, TStrs. cbn. rewrite map_map. cbn. induction l; [reflexivity|cbn; congruence].
 Qed.
+
+Lemma rev_fast_eq {A} (l : list A) : rev_fast l = rev l.
+Proof. unfold rev_fast. symmetry. apply rev_alt. Qed.
